@@ -1,6 +1,7 @@
 import FhVerif.Spec.Rfc9112
 import FhVerif.Model.ReqFraming
 import FhVerif.Model.ConnClose
+import FhVerif.Model.HeadEnd
 namespace Fh.Driver
 open Fh Fh.Spec.Rfc
 
@@ -41,6 +42,10 @@ def opsConn (op : String) (a : List Bytes) : Option String :=
   | "frame", [input] =>
     let (ms, s) := frame input
     some (";".intercalate (ms.map renderMsg ++ ["E " ++ renderStop s]))
+  | "headend", [buf] =>
+    match Fh.Model.parseHead (fun l b => (l, b)) buf with
+    | .needMore => some "needmore"
+    | .parsed (l, b) c => some s!"end {c} {hex l} {hex b}"
   | "connhist", [nka] :: mr :: rest => do
     let m ← natOfDec? mr
     some (connHist (nka != 0) m (splitReqs rest [] []))
